@@ -1,0 +1,110 @@
+//! Verification hooks (deterministic simulation harness in `/verif`).
+//!
+//! Compiled only with `--cfg aranya_verif`; with the guard off this module and
+//! every call into it do not exist. All state is thread-local so simulated runs
+//! on different worker threads never interact.
+
+#[allow(unused_extern_crates)]
+extern crate std;
+
+use alloc::{boxed::Box, collections::BTreeMap, vec::Vec};
+use core::cell::{Cell, RefCell};
+
+use crate::storage::{Location, MaxCut, SegmentIndex};
+
+std::thread_local! {
+    static FUEL: Cell<u64> = const { Cell::new(u64::MAX) };
+    static PROBES: RefCell<BTreeMap<&'static str, u64>> = const { RefCell::new(BTreeMap::new()) };
+    #[allow(clippy::type_complexity)]
+    static QUEUE_TRACE: RefCell<Option<Box<dyn FnMut(QueueEvent)>>> = const { RefCell::new(None) };
+}
+
+/// Message of the panic raised when the per-call loop budget is exhausted.
+pub const FUEL_EXHAUSTED: &str = "aranya_verif: fuel exhausted";
+
+/// Sets the loop budget for the library calls that follow (`u64::MAX` = unlimited).
+pub fn set_fuel(n: u64) {
+    FUEL.with(|f| f.set(n));
+}
+
+/// Remaining loop budget.
+pub fn fuel() -> u64 {
+    FUEL.with(Cell::get)
+}
+
+/// Called at the head of library loops. Turns a hang into a deterministic panic.
+#[inline]
+pub fn tick() {
+    FUEL.with(|f| {
+        let v = f.get();
+        if v == u64::MAX {
+            return;
+        }
+        if v == 0 {
+            panic!("{}", FUEL_EXHAUSTED);
+        }
+        f.set(v.wrapping_sub(1));
+    });
+}
+
+/// Counts that a rare branch was reached.
+#[inline]
+pub fn probe(name: &'static str) {
+    PROBES.with(|p| {
+        let mut p = p.borrow_mut();
+        let e = p.entry(name).or_insert(0);
+        *e = e.wrapping_add(1);
+    });
+}
+
+/// Takes and resets the probe counters of this thread.
+pub fn take_probes() -> BTreeMap<&'static str, u64> {
+    PROBES.with(|p| core::mem::take(&mut *p.borrow_mut()))
+}
+
+/// A mutating operation on a `TraversalQueue`, reported at entry.
+#[derive(Clone, Debug, PartialEq, Eq)]
+pub enum QueueOp {
+    Clear,
+    PushCovered { loc: Location, covered: bool },
+    PushDuplicate { loc: Location },
+    PopCovered,
+    PopDuplicates,
+    DrainAbove { threshold: MaxCut },
+    CoverUpTo { segment: SegmentIndex, coverage: MaxCut, longest: MaxCut },
+    DrainAll,
+}
+
+/// Operation plus the logical state of the queue before it runs.
+#[derive(Clone, Debug)]
+pub struct QueueEvent {
+    /// Identity of the queue object (its address).
+    pub queue: usize,
+    pub op: QueueOp,
+    /// Uncovered entries before the operation.
+    pub uncovered: Vec<Location>,
+    /// Covered entries before the operation.
+    pub covered: Vec<Location>,
+}
+
+/// Installs (or removes) the traversal-queue trace callback of this thread.
+pub fn set_queue_trace(cb: Option<Box<dyn FnMut(QueueEvent)>>) {
+    QUEUE_TRACE.with(|q| *q.borrow_mut() = cb);
+}
+
+#[inline]
+pub(crate) fn queue_op(queue: usize, entries: &[Location], partition: usize, op: QueueOp) {
+    QUEUE_TRACE.with(|q| {
+        if let Ok(mut q) = q.try_borrow_mut() {
+            if let Some(cb) = q.as_mut() {
+                let split = partition.min(entries.len());
+                cb(QueueEvent {
+                    queue,
+                    op,
+                    uncovered: entries[..split].to_vec(),
+                    covered: entries[split..].to_vec(),
+                });
+            }
+        }
+    });
+}
